@@ -53,10 +53,21 @@ static void create_pidfd(ev_src_t *tmp) {
 
 static void create_eventfd(ev_src_t *tmp) {
     tmp->task_src.f.fd = eventfd(0, EFD_CLOEXEC | EFD_NONBLOCK);
+    if (tmp->type == M_SRC_TYPE_TASK) {
+        tmp->task_src.wfd = dup(tmp->task_src.f.fd);
+        tmp->task_src.notified = false;
+    }
 }
 
 int poll_notify_userevent(poll_priv_t *priv, ev_src_t *src) {
     uint64_t u = 1;
+    if (src->type == M_SRC_TYPE_TASK) {
+        /* Called by the pool thread: it only ever uses its own duplicate of the descriptor */
+        const int ret = write(src->task_src.wfd, &u, sizeof(uint64_t)) == sizeof(uint64_t) ? 0 : -errno;
+        close(src->task_src.wfd);
+        src->task_src.notified = true;
+        return ret;
+    }
     /* task_src and thresh_src share memory layout, thus using task_src.f.fd is ok */
     if (write(src->task_src.f.fd, &u, sizeof(uint64_t)) == sizeof(uint64_t)) {
         return 0;
